@@ -88,6 +88,35 @@ func (h *Harness) Restart(before, after func(m *synchronization.Manager)) error 
 	return nil
 }
 
+// RestartBetween shuts the manager down, runs mid (with no manager alive: the
+// place to edit the persisted session files) and creates a new manager on the
+// same data directory, with no command in flight.
+func (h *Harness) RestartBetween(mid func()) error {
+	h.mu.Lock()
+	defer h.mu.Unlock()
+	h.mgr.Shutdown()
+	if mid != nil {
+		mid()
+	}
+	m, err := synchronization.NewManager(h.logger.Sublogger("sync"))
+	if err != nil {
+		return err
+	}
+	h.mgr = m
+	return nil
+}
+
+// SaveSession overwrites the persisted session record (only while no manager
+// is using it, e.g. inside RestartBetween).
+func SaveSession(s *synchronization.Session) error {
+	data, err := proto.Marshal(s)
+	if err != nil {
+		return err
+	}
+	p, _ := SessionFiles(s.Identifier)
+	return os.WriteFile(p, data, 0o600)
+}
+
 // Close shuts the manager down.
 func (h *Harness) Close() {
 	h.mu.Lock()
